@@ -1,0 +1,46 @@
+//go:build verif
+
+// Contracts for govc (/verif): C24, part 6: the terminal-failure paths of a local proposal in cosiHandleResponse (aggregate failure, failed
+// certificate check, expired round, changed references, ValidateSnapshot error): the proposal is abandoned THROUGH retryCosiSnapshot, i.e.
+// whenever this handler removes the aggregator of the snapshot its transactions have been given back to the cache queue.
+// Comment-only file.
+
+package kernel
+
+// ───────────── ASSUMED frames of the finalization helpers (their subjects: C09/C13 certificates, C18-C20 graph, C29 membership) ─────────────
+// For C24 only this matters: none of them writes the two CoSi maps, an aggregator's snapshot or its transaction list; they may change the
+// cache queue (finalized transactions leave it), the graph state and the store: ghost locations.
+//@ assume func (node *Node) cacheVerifyCosi
+//@   modifies ghost kernel_graph_state
+//@ assume func (node *Node) finalizeNodeAcceptSnapshot
+//@   modifies ghost kernel_graph_state, ghost bytes_cachequeue, ghost store_errors
+//@ assume func (chain *Chain) AddSnapshot
+//@   modifies ghost kernel_graph_state, ghost bytes_cachequeue, ghost store_errors
+//@ assume func (node *Node) reloadConsensusState
+//@   modifies ghost kernel_graph_state, ghost bytes_cachequeue, ghost store_errors
+//@ assume func (c *CacheRound) ValidateSnapshot
+//@   modifies ghost kernel_graph_state
+//@ assume func (me *p2p.Peer) SendSnapshotFinalizationMessage
+//@   modifies nothing
+//@ assume func (node *Node) SendTransactionsToPeer
+//@   -- reads the bodies from the store and sends them to the peer (network); writes no kernel state
+//@   modifies ghost store_errors
+
+//@ func (chain *Chain) cosiHandleResponse
+//@   property C24
+//@   trustpre IsPledging ConsensusThreshold
+//@   trustpre quiet: ConsensusKeys VerifyResponse AggregateResponse
+//@   ignorepost ConsensusKeys VerifyResponse AggregateResponse
+//@   requires CosiChainOK(chain) && m != nil && m.data != nil && m.data.PN != nil && chain.node.Peer != nil && chain.CosiCommunicatedAt != nil
+//@   requires [aggregator] has(chain.CosiAggregators, m.SnapshotHash) && chain.CosiAggregators[m.SnapshotHash] != nil && chain.CosiAggregators[m.SnapshotHash].Snapshot != nil &&
+//@       chain.CosiAggregators[m.SnapshotHash].Responses != nil && chain.CosiAggregators[m.SnapshotHash].Snapshot.Signature != nil && chain.CosiAggregators[m.SnapshotHash].Snapshot.References != nil
+//@       -- checkActionSanity accepts a response action only for an existing aggregator (cosi.go:180); the aggregator was built by cosiSendAnnouncement
+//@       -- and signed by cosiHandleCommitment
+//@   maypanic
+//@   noframe -- the frame below is ASSUMED: it is the union of the assumed helper frames above; C24 only needs the clause [abandoned-requeues]
+//@   modifies chain.CosiAggregators[-], chain.CosiVerifiers[-], ghost bytes_cachequeue, ghost store_errors, ghost kernel_graph_state
+//@   -- if this call removed the snapshot's aggregator (and the store returned no error), every transaction of that snapshot that is still
+//@   -- unfinalized and has a body is back in the cache queue
+//@   ensures [abandoned-requeues] err == nil && !has(chain.CosiAggregators, m.SnapshotHash) && StoreErrors(chain.node.persistStore) == old(StoreErrors(chain.node.persistStore)) ==>
+//@       TxsRequeued(chain.node.persistStore, old(chain.CosiAggregators[m.SnapshotHash]).Snapshot)
+//@   loop 0 invariant has(chain.CosiAggregators, m.SnapshotHash)
